@@ -524,7 +524,7 @@ fn rollup(init: usize, checks: &mut u64) -> Fails {
     // train level: all car mixes with and without override
     for (nl, ne) in [(3u32, 0u32), (0, 4), (5, 7)] {
         for (mo, lo) in [(None, None), (Some(1.234e6), None), (None, Some(333.0)), (Some(2.0e6), Some(500.0))] {
-            let spec = TrainSpec { n_loaded: nl, n_empty: ne, davis: false, mass_override: mo, length_override: lo, consist: 0 };
+            let spec = TrainSpec { n_loaded: nl, n_empty: ne, davis: false, mass_override: mo, length_override: lo, consist: 0, cd_vec: false };
             let mut b = builder(&spec, None, Some(InitTrainState::new(Some(0.0 * uc::S), None, None)), None);
             b.loco_con = con.clone();
             let net = build_topology(&line_topology(&[5000.0], 20.0), false, SetStyle::Single);
